@@ -9,6 +9,7 @@ Next == \/ \E s \in Shas : Generate(s)
         \/ \E g \in 1..2, ok \in BOOLEAN : SelfParse(g, ok)
         \/ \E g \in 1..2 : Install(g)
         \/ \E d \in 1..2, same \in BOOLEAN : Compare(d, same)
-TypeOK == installed \in 0..2 /\ selfok \subseteq 1..2 /\ agree \subseteq 1..2 /\ differ \subseteq 1..2
+        \/ \E s \in Shas : Regenerate(s)
+TypeOK == redo \in [1..2 -> SUBSET Shas] /\ installed \in 0..2 /\ selfok \subseteq 1..2 /\ agree \subseteq 1..2 /\ differ \subseteq 1..2
 OnlySelfHostingInstalled == installed # 0 => installed \in selfok
 =============================================================================
